@@ -12,6 +12,28 @@ CLAIMED = {
    text='OnlineAverage/OnlineVariance (ctor, setWindowSize, update, reset, isAvailable, getAverage/getVariance) and RingOfEigenVector (ctor, append, operator[], size, clear) are proved against the view "last min(n,W) items" for all W<=64 / capacities<=16 from any well-formed state; sums are exact integer deltas.',
    note=TB_A + '; sum = Sigma(window) by induction from the delta postcondition (sequence lemma on paper); real-number identity variance-expression = sample variance not machine-checked in A', ref='DESIGN.md 4 (C16)'),
 }
+CLAIMED.update({
+ 'C18': dict(cat='proof', technique='CBMC code contracts (dfcc) on extracted C: bit-precise IEEE comparisons against uninterpreted rounded thresholds; exhaustive status algebra; unrolled bounded quantifiers',
+   text='Equal-to/greater-than/lower-than/reliability check-ups are proved to classify by their thresholds for every binary64 value (values on a threshold and one ulp either side included), returned = stored status, message = name ++ verdict, info = printed value, exactly one diagnostic/info kept by every operation (so sequences follow by induction); worse() laws exhaustively; worseStatus/allOK with a loop invariant for lists <= 20; operator+= concatenation.',
+   note=TB_A + '; strings are opaque handles (concatenation/printing uninterpreted); t-eps / t+eps are the rounded IEEE results (uninterpreted); std::map::insert(range) merge semantics assumed', ref='DESIGN.md 4 (C18)'),
+ 'C17': dict(cat='proof', technique='CBMC code contracts (dfcc) on extracted C: window abstract view with ghost probes; check-up contracts of C18 used by replacement',
+   text='RateMonitoring (constructors, initialize, update, getRate, timeout) is proved against the abstract window of the last min(n,W) periods: W = clamp(trunc(2*rate),4,64), exact integer sum delta, rate unchanged until W+1 stamps and then fdiv(1e9, fdiv(sum, W)), timeout rule and frame; CheckupRate<EqualTo|GreaterThan>::evaluate/heartBeatCallback/getReport: status, message and value string agree with that rate; STALE/empty value after a timeout, earlier heartbeats change nothing.',
+   note=TB_A + '; floating quotient kept symbolic (1e9/(S/W) = W/(S*1e-9) is a real-number fact); stamps in [0,4e18] ns, periods <= 10 s; queue model capacity 128', ref='DESIGN.md 4 (C17)'),
+ 'C13': dict(cat='proof', technique='SMT verification conditions over reals/integers generated from the extracted code (z3/cvc5 portfolio) + CBMC loop contracts for the centre table',
+   text='For every extent, resolution > 0 and point inside the closed extent (no size bound): index < cell count, point within res/2 of its cell centre, centres map to their own index, spacing = res, first/last cells cover the bounds - each clause one discharged SMT query per axis, for the interval and the symmetric constructor, 2-D and 3-D; the table-filling loop and the look-up are proved by CBMC contracts.',
+   note=TB_B + '; rounding of points exactly on a cell border is not decided (exact arithmetic); C model tables of <= 32 cells in back end A', ref='DESIGN.md 4 (C13)'),
+})
+CLAIMED.update({
+ 'C10': dict(cat='proof', technique='SMT verification conditions over the reals generated from the extracted code, libm as uninterpreted functions with ground axiom instances (z3/cvc5 portfolio)',
+   text='Normalisers (range and congruence mod 2*pi for |val| < 4*pi), planar angle<->matrix pair (both directions), rotation3DToEulerAngles applied to Rz*Ry*Rx returns the angles mod 2*pi (|pitch| < pi/2), SmartRotation3D::R equals Rz*Ry*Rx entry by entry, is orthonormal with determinant 1, polar and spherical <-> Cartesian round trips: each an unbounded statement over all real inputs, one discharged query per clause.',
+   note=TB_B + '; NOT covered: the Eigen quaternion/AngleAxis route, general R->angles->R, float narrowing (see specs/C10/meta.json)', ref='DESIGN.md 4 (C10)'),
+ 'C12': dict(cat='proof', technique='SMT verification conditions: extracted derivative matrices against the formal derivative (symalg) of the reported rotation',
+   text='All 27 entries of dR/droll, dR/dpitch, dR/dyaw are compared with the formal derivative of the corresponding entry of the reported R (= Rz*Ry*Rx, proved): 17 entries are discharged, 10 are refuted and listed as known findings (pinned by the existing tests); dRTdAngles(T) is proved to be (dR/da)*T column by column.',
+   note=TB_B + '; NOT covered: pose Jacobian of operator*(Affine3d, Pose3D), LeastSquares::computeEstimateCovariance (see specs/C12/meta.json)', ref='DESIGN.md 4 (C12)'),
+ 'C01': dict(cat='proof', technique='SMT verification conditions over the reals generated from the extracted code; fixed-point loop summarised (partial correctness); lemma + generalisation steps',
+   text='Forward map proved to be foot point + h * unit normal with the foot point on the ellipsoid and the ellipsoid normal parallel to (cos lat cos lon, cos lat sin lon, sin lat); inverse on the image of the forward map: longitude recovered exactly, the true latitude is a fixed point of the iteration map, height recovered at the fixed point, latitude in (-pi/2, pi/2), longitude in (-pi, pi], all divisions / square roots defined.',
+   note=TB_B + '; tolerances (1e-9 rad, 1 mm), rounding, loop termination and uniqueness of the fixed point are not decided (exact arithmetic, partial correctness)', ref='DESIGN.md 4 (C01)'),
+})
 NA = {}
 def main():
     props = [json.loads(l) for l in open(os.path.join(V, 'properties.jsonl'))]
